@@ -335,3 +335,61 @@ def rule_flush_forward(u, rep, rule="FLUSH-FWD"):
             rep.add(rule, ty_str(im.self_ty).split("<")[0], "`%s`::flush has a path that returns without flushing the writer it wraps" % ty_str(im.self_ty), b.loc())
     rep.count("flush_wrappers", n)
     return n
+
+
+def rule_write_bytes_plain(u, rep):
+    """WRITE-BYTES: the default WriteWithNames::write_bytes (the one every real writer uses) emits exactly the slice it was
+    given, with one write_all(value) on itself: no alignment point, no second write. Padding is decided by the callers
+    (align::<T>() once per block), so a self-aligning write_bytes pads between the items of a per-item writer."""
+    n = 0
+    for tid, (c, tj) in u.traits.items():
+        if not tid.endswith("::WriteWithNames"):
+            continue
+        for it in tj["items"]:
+            if it["name"] != "write_bytes":
+                continue
+            b = u.body(c.def_id(it["d"]))
+            if b is None or b.thir is None:
+                continue
+            ip, paths = run_method(u, b)
+            oks = [p for p in paths if outcome_of(u, p)[0] == "ok"]
+            if not oks:
+                rep.add("WRITE-BYTES", "default:paths", "the default WriteWithNames::write_bytes has no successful path", b.loc())
+            for p in oks:
+                evs = [e for e in p.events if e[0] in ("W", "A", "Loop")]
+                ok = len(evs) == 1 and evs[0][0] == "W" and evs[0][2] == "B" and evs[0][1] == ("self",) and evs[0][4] == ("param", "value")
+                rep.oblige(ok)
+                n += 1
+                if not ok:
+                    rep.add("WRITE-BYTES", "default", "the default WriteWithNames::write_bytes must emit exactly the slice it is given with one write_all(value); it emits %s"
+                            % [(e[0], e[2] if e[0] == "W" and len(e) > 2 else "", label(e[4]) if e[0] == "W" and len(e) > 4 else "") for e in evs], b.loc())
+    return n
+
+
+def rule_write_delegates(u, rep):
+    """WRITE-FWD: the default WriteWithNames::write (the one every real writer uses) hands the value to its own
+    writer exactly once, `value._serialize_inner(self)`, on every successful path and for every type: a shortcut for
+    some class of types (zero-sized, ...) drops what that type's writer emits (a tag, a length, an alignment point)."""
+    n = 0
+    for tid, (c, tj) in u.traits.items():
+        if not tid.endswith("::WriteWithNames"):
+            continue
+        for it in tj["items"]:
+            if it["name"] != "write":
+                continue
+            b = u.body(c.def_id(it["d"]))
+            if b is None or b.thir is None:
+                continue
+            ip, paths = run_method(u, b)
+            oks = [p for p in paths if outcome_of(u, p)[0] == "ok"]
+            if not oks:
+                rep.add("WRITE-FWD", "default:paths", "the default WriteWithNames::write has no successful path", b.loc())
+            for p in oks:
+                evs = [e for e in p.events if e[0] in ("W", "Loop")]
+                ok = len(evs) == 1 and evs[0][0] == "W" and evs[0][2] == "F" and evs[0][1] == ("self",) and evs[0][4] == ("param", "value")
+                rep.oblige(ok)
+                n += 1
+                if not ok:
+                    rep.add("WRITE-FWD", "default", "the default WriteWithNames::write must delegate exactly once to value._serialize_inner(self) on every successful path; %s it emits %s"
+                            % (("under [%s]" % ", ".join(row_str(norm_cond(c)) for c in p.conds)) if p.conds else "", [(e[0], e[2] if e[0] == "W" and len(e) > 2 else "") for e in evs]), b.loc())
+    return n
